@@ -171,12 +171,11 @@ impl Thread {
         thread.insert("callstack".to_owned(), serde_json::Value::Array(cs_array));
         thread.insert("threadIndex".to_owned(), json!(self.thread_index));
 
-        if !self.previous_pointer.is_null() {
+        // A previous position that no longer resolves (an index past the end, from an older or hand-edited save) is not written
+        if let Some(previous_object) = self.previous_pointer.resolve() {
             thread.insert(
                 "previousContentObject".to_owned(),
-                json!(
-                    Object::get_path(self.previous_pointer.resolve().unwrap().as_ref()).to_string()
-                ),
+                json!(Object::get_path(previous_object.as_ref()).to_string()),
             );
         }
 
